@@ -235,6 +235,31 @@ fn pairwise(input: &[u8], level: i32, zlib: bool, place: Place) -> Result<u64, S
             return Err(format!("tinfl_decompress_mem_to_mem(capacity {} < needed {}) returned {} instead of the failure value", cap, input.len(), sz));
         }
     }
+    // tinfl_decompress with a wrapping window of every size class (empty, 1, 2, small, 32 KiB, and
+    // the non-powers of two the core rejects) at three offsets: first call vs decompress()
+    unsafe {
+        for &w in &[0usize, 1, 2, 4, 64, 32768, 3, 100] {
+            let mut offs = vec![0usize, w / 2, w.saturating_sub(1)];
+            offs.dedup();
+            for &o in &offs {
+                for more in [0, F_MORE] {
+                    let r = tinfl_decompressor_alloc();
+                    tinfl_init(r);
+                    let mut rr = DecompressorOxide::new();
+                    let k = want.len().min(300);
+                    let (st, cin, cout, obytes) = capi::tinfl_once(r, &want[..k], w, o, zf | more, place);
+                    let mut rbuf = vec![0u8; w];
+                    let (rst, rin, rout) = decompress(&mut rr, &want[..k], &mut rbuf, o, zf | more);
+                    tinfl_decompressor_free(r);
+                    n += 1;
+                    let wn = rout.min(w - o);
+                    if st != rst as i32 || cin != rin || cout != rout || obytes[..wn.min(obytes.len())] != rbuf[o..o + wn] {
+                        return Err(format!("tinfl_decompress, wrapping window of {} bytes at offset {}, flags {:#x} -> ({}, {}, {}), decompress -> ({}, {}, {})", w, o, zf | more, st, cin, cout, rst as i32, rin, rout));
+                    }
+                }
+            }
+        }
+    }
     // tinfl_decompress chunked vs decompress
     unsafe {
         let r = tinfl_decompressor_alloc();
